@@ -256,11 +256,20 @@ func verifClientScenario(byID bool, k, faults, ackQueue int, maxDuration time.Du
 	}
 	close(in)
 	stopAt := sym.VirtualNow()
+	// the stop request aborts the session that is active at that moment; a stop that arrives between two sessions
+	// (reconnecting) finds none, and an operation of the next session that hangs then runs into its own deadline
+	sessionActiveAtStop := w.(*ClientWorker).activeSession.Load() != nil
 	closed.Signal()
 	w.Stopped().WaitForever() // deadlock = the client does not terminate after the stop request
 	// C18: every wait on the stop path is interrupted by the stop request; the only time that may pass
 	// is the deadline of one operation that is hung on a connection nobody can abort any more (1 s in this script)
-	sym.Assert(sym.VirtualNow()-stopAt <= int(2*time.Second), "the client stops within the deadline of one hung operation after the stop request")
+	if verifHonourDeadlines && !sessionActiveAtStop {
+		// with real deadlines (tens of seconds) that one operation may take its configured deadline; the client must
+		// still be done before the buffer's Destroy gives up waiting for it
+		sym.Assert(sym.VirtualNow()-stopAt < int(defs.BufferShutDownTimeout), "a stop request that arrives between two sessions still ends the client within the configured shutdown bound")
+	} else {
+		sym.Assert(sym.VirtualNow()-stopAt <= int(2*time.Second), "the client stops within the deadline of one hung operation after the stop request")
+	}
 	// ---- every chunk taken from the queue is resolved exactly once ----
 	var notTaken []string
 	for c := range in {
